@@ -2,7 +2,8 @@
 import gc
 
 from traits.api import (DelegatesTo, HasStrictTraits, HasTraits, Instance,
-                        Int, List, Property, PrototypedFrom, TraitError)
+                        Int, List, Property, PrototypedFrom, TraitError,
+                        cached_property)
 
 LEVEL = "model_checking"
 RULE = ("every history up to the depth bound over: assign through the "
@@ -65,6 +66,22 @@ class PChild2(HasTraits):
     parent = Instance(Parent)
     x = PrototypedFrom("parent")
     xx = PrototypedFrom("parent", prefix="y")
+
+
+class PChild2P(HasTraits):
+    """the prototype attribute is a Property (never in the instance
+    dictionary)"""
+    plist = List(Instance(Parent))
+    pidx = Int(0)
+    parent = Property(Instance(Parent), observe="plist.items, pidx")
+    x = PrototypedFrom("parent")
+    xx = PrototypedFrom("parent", prefix="y")
+
+    @cached_property
+    def _get_parent(self):
+        if self.pidx < len(self.plist):
+            return self.plist[self.pidx]
+        return None
 
 
 class Leaf(HasTraits):
@@ -134,10 +151,16 @@ class World:
             return
         self.parents = [Parent(), Parent()]
         cls = {"delegate": Child, "proto": PChild, "proto2": PChild2,
-               "proto2late": PChild2}[kind]
+               "proto2late": PChild2, "proto2prop": PChild2P}[kind]
+        # (an instance of a subclass that adds nothing: everything the class
+        #  declares, __prefix__ included, is inherited)
+        cls = type(cls.__name__ + "Sub", (cls,), {})
         self.attrs = dict(ALL_ATTRS) if not kind.startswith("proto2") else \
             {"x": "x", "xx": "y"}
-        self.c = cls(parent=self.parents[0])
+        if kind == "proto2prop":
+            self.c = cls(plist=self.parents)
+        else:
+            self.c = cls(parent=self.parents[0])
         self.cur = 0
         self.P = [{"x": 1, "y": 2, "pre_q": 3, "pp_r": 4, "_t": 6,
                    "pp_t": 66, "nl": 7} for _ in range(2)]
@@ -317,7 +340,10 @@ def step(ctx, w, ev, hist, check):
                     ctx.outcome("former-delegate-silent" if i != w.cur
                                 else "unlinked-silent")
     elif k == "swap":
-        c.parent = w.parents[ev[1]]
+        if w.kind == "proto2prop":
+            c.pidx = ev[1]
+        else:
+            c.parent = w.parents[ev[1]]
         w.cur = ev[1]
         ctx.nontriv((w.kind, "swap", ev[1], repr(canon(w))))
     elif k == "hook":
@@ -475,8 +501,8 @@ def run_history(ctx, kind, hist):
 
 def shards(tier):
     out = []
-    for kind in ("delegate", "proto", "proto2", "proto2late", "chain",
-                 "chainprop"):
+    for kind in ("delegate", "proto", "proto2", "proto2late", "proto2prop",
+                 "chain", "chainprop"):
         for i in range(len(menu(kind))):
             out.append({"kind": kind, "first": i})
     return out
@@ -485,7 +511,8 @@ def shards(tier):
 def run_shard(ctx, shard, tier):
     kind = shard["kind"]
     evs = menu(kind)
-    small = kind in ("proto2", "proto2late", "chain", "chainprop")
+    small = kind in ("proto2", "proto2late", "proto2prop", "chain",
+                     "chainprop")
     depth = (5 if small else 3) if tier == "quick" else (6 if small else 4)
     frontier = [[]]
     n_exec = 0
